@@ -240,3 +240,15 @@ func verifExpectRows(rm RelationManager, rows [][]interface{}, tag string) {
 	t := &verifTable{name: "t", cols: verifStdCols, rows: rows}
 	verifCheckTable(rm, t, tag)
 }
+
+// verifLongString returns a symbolic string of n bytes (first byte symbolic, rest 'x').
+func verifLongString(tag string, n int) string {
+	b := make([]byte, n)
+	for i := range b {
+		b[i] = 'x'
+	}
+	if n > 0 {
+		b[0] = verifU8(tag)
+	}
+	return string(b)
+}
